@@ -37,6 +37,9 @@ VECTOR_METHODS = [
     "to_string", "to_strings", "equal", "is_na", "dt_year", "re_sub", "str_upper", "get_memory_use",
 ]
 ANY_KINDS = ["f", "i", "b", "s", "u", "d", "t", "td", "o", "ob"]
+IDENTITY_CASTS = [("b", "as_boolean"), ("f", "as_float"), ("i", "as_integer"), ("o", "as_object"), ("oi", "as_object"),
+                  ("s", "as_string"), ("y", "as_bytes"), ("d", "as_date"), ("t", "as_datetime"),
+                  ("f", "replace_na"), ("s", "replace_na"), ("i", "drop_na"), ("i", "head"), ("s", "tail")]
 
 
 @st.composite
@@ -53,6 +56,12 @@ def _frame(draw, n, tag):
 @st.composite
 def _plan(draw, max_rows):
     if draw(st.integers(0, 2)) == 0:
+        if draw(st.integers(0, 3)) == 0:
+            # conversions to the dtype the vector already has: the one place where "nothing to do"
+            # shortcuts (astype(copy=False), asarray) would hand back the receiver itself
+            kind, m = draw(st.sampled_from(IDENTITY_CASTS))
+            n = draw(st.integers(1, max_rows))
+            return {"target": "vector", "kind": kind, "vals": draw(gen.values(kind, n)), "m": m, "a": draw(st.integers(0, 5))}
         kind = draw(st.sampled_from(ANY_KINDS + ["y", "oi"]))
         n = draw(st.integers(0, max_rows))
         return {"target": "vector", "kind": kind, "vals": draw(gen.values(kind, n)),
